@@ -192,6 +192,10 @@ func (m *Map[K, V]) ToMap() map[K]V {
 func ToMapRecursive(src any) any {
 	switch tsrc := src.(type) {
 	case *Map[string, any]:
+		if tsrc == nil {
+			// A nil map converts like an empty one (as ToMap does).
+			return map[string]any(nil)
+		}
 		um := make(map[string]any, len(tsrc.index))
 		tsrc.Range(func(k string, v any) error {
 			um[k] = ToMapRecursive(v)
